@@ -30,6 +30,7 @@ Picks ==
     [] Family = "markers" -> MarkerPicks(N, Phases, Slice, Slices)
     [] Family = "modes"   -> ModePicks(N, Engines, Slice, Slices)
     [] Family = "select"  -> SelectPicks(N, Phases, Slice, Slices)
+    [] Family = "select2" -> Sel2Picks(N, Phases, Slice, Slices)
     [] Family = "operate" -> OperatePicks(N, Phases, Slice, Slices)
     [] Family = "chain"   -> ChainPicks(N, MaxChain, Phases, Slice, Slices)
     [] Family = "acts"    -> ActsPicks(N, MaxChain > 0, Slice, Slices)
@@ -41,6 +42,7 @@ ScenOf(pk) ==
     [] Family = "markers" -> MarkerScen(pk)
     [] Family = "modes"   -> ModeScen(pk)
     [] Family = "select"  -> SelectScen(pk)
+    [] Family = "select2" -> Sel2Scen(pk)
     [] Family = "operate" -> OperateScen(pk)
     [] Family = "chain"   -> ChainScen(pk)
     [] Family = "acts"    -> ActsScen(pk)
